@@ -706,6 +706,7 @@ def check_kernel_mode(sb, kernel, view, key, mod, consts, mode, opts, res, known
     res["stubs"] = sorted(exr.stubs_used)
     res["prune_calls"] = exr.prune_calls
     base = list(exr.base_facts) + list(getattr(exr.dom, "facts", []))
+    ex.set_ctx(mode, W if W is not None else 64)
     pre = kernel.pre(env) if kernel.pre else True
     # known-finding regions are excluded from the refutation query
     regions = []
@@ -962,6 +963,15 @@ def replay(sb, kernel, view, key, consts, inputs, path, okind, regions):
             out["replay"] = "not-reproduced"
         return out
     env, cp = conc_env_and_path(kernel, consts, inputs, observed)
+    ctx_save = tuple(ex._CTX)
+    ex.set_ctx("py")
+    try:
+        return replay_conc(sb, kernel, view, key, consts, inputs, path, okind, out, env, cp, hx)
+    finally:
+        ex.set_ctx(*ctx_save)
+
+
+def replay_conc(sb, kernel, view, key, consts, inputs, path, okind, out, env, cp, hx):
     if cp.kind == "ERR":
         out["replay"] = "runner-error"
         return out
